@@ -266,7 +266,9 @@ func mandatoryGroup(re *syntax.Regexp, n int, must bool) bool {
 // carriedMatchEnd: ph is carried round a loop whose counter K goes up by one per trip, starts at a
 // value ≤ every offset (a constant ≤ 0), and on every back edge is either unchanged or a column of a
 // row R[K+c], c ≤ 0, of one FindAll result R.  Then at the header, and in the body for the current K,
-//   0 ≤ ph ≤ lo(R@K)   and   ph ≤ len(input):
+//
+//	0 ≤ ph ≤ lo(R@K)   and   ph ≤ len(input):
+//
 // it is 0 or the offset of a row before the current one, and rows are ordered (2).  The fact about
 // R@K is only used where R[K] is loaded, which E2 proves in range on its own.
 func (g *cgraph) carriedMatchEnd(ph *ssa.Phi, key string) {
@@ -370,8 +372,10 @@ func (g *cgraph) carriedMatchEnd(ph *ssa.Phi, key string) {
 					rowLoaded = true
 				}
 				// proving by cases: on the path through the case's predecessor the row was loaded
-				if a.curCase != nil && (ld.Block() == a.curCase.pred || ld.Block().Dominates(a.curCase.pred)) {
-					rowLoaded = true
+				for _, cc := range append([]*phiCase{a.curCase}, a.curCases...) {
+					if cc != nil && (ld.Block() == cc.pred || ld.Block().Dominates(cc.pred)) {
+						rowLoaded = true
+					}
 				}
 			}
 		}
